@@ -22,7 +22,7 @@ type TypeMethod struct {
 	Name              string
 	Inputs            []MethodType
 	Outputs           []MethodType
-	ReceiverIsPointer bool // true if receiver is *T, false if T
+	ReceiverIsPointer bool // true if the method is only in the method set of *T, false if it is also in that of T
 }
 
 // MethodType represents a type in method signature
@@ -134,13 +134,18 @@ func extractMethodsFromNamedType(named *types.Named) []TypeMethod {
 	ptrType := types.NewPointer(named)
 	methodSet := types.NewMethodSet(ptrType)
 
+	// The method set of T itself decides what a value of type T offers: it contains the
+	// methods declared with a value receiver and everything promoted through an embedded
+	// pointer, whatever the receiver of the promoted method's own declaration
+	valueMethodSet := types.NewMethodSet(named)
+
 	for i := 0; i < methodSet.Len(); i++ {
 		selection := methodSet.At(i)
 		method := selection.Obj().(*types.Func)
 		sig := method.Type().(*types.Signature)
 
-		// Determine if receiver is pointer
-		recvIsPointer := isPointerReceiver(sig.Recv().Type())
+		// Determine if the method needs a pointer to T
+		recvIsPointer := valueMethodSet.Lookup(method.Pkg(), method.Name()) == nil
 
 		methods = append(methods, TypeMethod{
 			Name:              method.Name(),
@@ -151,12 +156,6 @@ func extractMethodsFromNamedType(named *types.Named) []TypeMethod {
 	}
 
 	return methods
-}
-
-// isPointerReceiver checks if receiver type is a pointer
-func isPointerReceiver(t types.Type) bool {
-	_, ok := t.(*types.Pointer)
-	return ok
 }
 
 // extractMethodTypesFromTuple converts types.Tuple to MethodType slice
